@@ -209,3 +209,30 @@ def make_ws(sock, **kw):
 
 def exc_name(e):
     return type(e).__name__
+
+
+def patch_clock(fake):
+    """Replace the real `time` module / time.time / time.sleep wherever a module of the websocket package references them (generic scan, so that
+    moving an import inside the library does not let the real clock escape). Returns an undo callable."""
+    import sys as _sys
+    import time as _time
+    saved = []
+    for modname, mod in list(_sys.modules.items()):
+        if mod is None or not (modname == "websocket" or modname.startswith("websocket.")) or modname.startswith("websocket.tests"):
+            continue
+        for name, val in list(vars(mod).items()):
+            new = None
+            if val is _time:
+                new = fake
+            elif val is _time.time:
+                new = fake.time
+            elif val is _time.sleep:
+                new = fake.sleep
+            if new is not None:
+                saved.append((mod, name, val))
+                setattr(mod, name, new)
+
+    def undo():
+        for mod, name, val in saved:
+            setattr(mod, name, val)
+    return undo
